@@ -54,7 +54,7 @@ def _o_parse(parse_f, canon_f):
         try:
             obj = guarded(lambda: parse_f(f))
             c = canon_f(obj)
-        except Exception as e:
+        except (Exception, ImplTimeout) as e:
             return _exn_code(e)
         return b"\0" + f.tell().to_bytes(4, "big") + c
     return o
@@ -66,7 +66,7 @@ def _o_mbpost(b):
     try:
         d = guarded(lambda: S.parse_as_dict([p[0] for p in pairs], "".join(p[1] for p in pairs), f))
         d = guarded(lambda: MPP.post_unpack_merkleblock(d, f))
-    except Exception as e:
+    except (Exception, ImplTimeout) as e:
         return _exn_code(e)
     return b"\0" + b"".join(d["tx_hashes"])
 
@@ -218,15 +218,16 @@ def unkwtok(t):
 
 
 # ---- implementation thunks ------------------------------------------------------------------------
-class ImplTimeout(Exception):
+N_TIMEOUTS = [0]
+
+
+class ImplTimeout(BaseException):     # not an Exception: the code under test must not swallow it
     pass
 
 
 def _on_alarm(signum, frame):
+    N_TIMEOUTS[0] += 1
     raise ImplTimeout("implementation call did not return within the time limit")
-
-
-N_TIMEOUTS = [0]
 
 
 def guarded(f, secs=1.0):
@@ -241,9 +242,6 @@ def guarded(f, secs=1.0):
     signal.setitimer(signal.ITIMER_REAL, secs)
     try:
         return f()
-    except ImplTimeout:
-        N_TIMEOUTS[0] += 1
-        raise
     finally:
         signal.setitimer(signal.ITIMER_REAL, 0)
         signal.signal(signal.SIGALRM, old)
